@@ -391,7 +391,7 @@ def run(chk):
     sc = []
     for kind in (b"dsc", b"changes"):
         for op in (b"copy", b"move"):
-            for variant in (b"same", b"symlink", b"hardlinks"):
+            for variant in (b"same", b"symlink", b"hardlinks", b"destlink"):
                 for _ in range(chk.n(3, 30)):
                     files = []
                     for k in range(chk.rng.randrange(1, 4)):
@@ -409,8 +409,14 @@ def run(chk):
             ents = {bytes.fromhex(n): bytes.fromhex(v) for n, v in re.findall(r"\( x([0-9a-f]*) x([0-9a-f]*) \)", body)}
             orig = {c[1][i]: c[1][i + 1] for i in range(3, len(c[1]), 2)}
             orig[b"x_1.0-1." + c[1][0]] = bytes.fromhex(text[1:])
+            if ents.get(b"outside/precious", b"precious") != b"precious":
+                chk.violate({"kind": "property", "class": "copy-follows-destination-symlink", "case": lib.show_case(c), "impl": r[:600],
+                             "explanation": "a file outside the control file's directory and the destination was overwritten: the destination held a symbolic link named like a listed file, and the copy was written through it"})
+                continue
             for where, content in ents.items():
                 d, n = where.split(b"/", 1)
+                if d == b"outside" or (c[1][2] == b"destlink" and d == b"D" and n == c[1][3]):
+                    continue          # (the link itself reads as its target)
                 if n in orig and content != orig[n]:
                     why = "the file %s of the upload lost its content (%d of %d bytes left)" % (where.decode(), len(content), len(orig[n]))
             if parts[0] == "ok":
